@@ -128,6 +128,12 @@ type valueSpec struct {
 	Why   string
 }
 
+// other accepted canonical forms of the same decoding, per type
+var valueAlts = map[string][]map[string]string{
+	// INT24 sign extension by shifting the 24-bit value to the top of an int32 and back
+	"TypeInt24": {{"!unsigned": "AppendInt(nil,conv<int64>((>> conv<int32>(256*LE(3,data[pos])) 8)),10)", "unsigned": "AppendUint(nil,LE(3,data[pos]),10)"}},
+}
+
 func le(w int) string {
 	if w == 1 {
 		return "data[pos]"
@@ -195,10 +201,11 @@ func c10Values(a *A, cd *codec) {
 		var term string
 		if ok {
 			term = valueTerm(cd, rv, rets[0].Results[0])
-			ok = strings.HasPrefix(term, "AppendUint(nil,") && strings.HasSuffix(term, ",10)") && strings.Contains(term, "(<< data[") && strings.Contains(term, "8*")
-			// loop bound = k
-			cond := valueCond(cd, rv, rets[0])
-			ok = ok && strings.HasSuffix(cond, fmt.Sprintf("< %d)", k))
+			want := fmt.Sprintf("AppendUint(nil,LE(%d,data[pos]),10)", k)
+			if k == 1 {
+				want = "AppendUint(nil,data[pos],10)"
+			}
+			ok = term == want
 		}
 		a.check(ok, "C10-R3", fmt.Sprintf("value@TypeString[set,%d bytes]", k), w.pos(cd.valFn.Pos()), "base-10 text of a little-endian accumulation over "+fmt.Sprint(k)+" bytes",
 			"SET (as CHAR real type) is not decoded as the base-10 text of its little-endian bitmask over "+fmt.Sprint(k)+" bytes: "+term)
@@ -236,7 +243,13 @@ func checkValueSpecs(a *A, cd *codec, specs []valueSpec) {
 			if md >= 0 {
 				key += fmt.Sprintf("[md=%d]", md)
 			}
-			if mapsEqual(got, vs.Want) {
+			match := mapsEqual(got, vs.Want)
+			for _, alt := range valueAlts[vs.Type] {
+				if mapsEqual(got, alt) {
+					match = true
+				}
+			}
+			if match {
 				a.hold(vs.Rule, key, pos, "%s: %s", vs.Why, renderMap(got))
 			} else {
 				a.viol(vs.Rule, key, pos, "%s decodes as {%s}; the documented decoding (%s) is {%s}", vs.Type, renderMap(got), vs.Why, renderMap(vs.Want))
